@@ -53,6 +53,12 @@ def check(ctx):
                "(with balancing off, other tasks' bookings never influence a task)", floor=3)
     ctx.guarded(o, lambda o: sched_fill.selectors(ctx, o, S))
 
+    # capacities come from the calendars: the leaf calendars must answer for the day they are asked about (C17's obligation, reused:
+    # a dated calendar that misses its entry makes a day without capacity look free, or a free day look closed)
+    from . import c17 as _c17b
+    _c17b._leaf_semantics(ctx)
+    _c17b._none_zero(ctx)
+
     from .c03 import ledger_shape
     o = ctx.ob('ledger_day_key', 'R10',
                "ledger rows are stored under midnight(day) and every query compares that key (a raw-date comparison makes booked "
